@@ -208,7 +208,7 @@ DynamicBitset& DynamicBitset::set( size_t pos, bool value)
 DynamicBitset& DynamicBitset::reset() noexcept( true)
 {
 
-   mData.clear();
+   std::fill( mData.begin(), mData.end(), false);
 
    return *this;
 } // DynamicBitset::reset
